@@ -55,11 +55,19 @@ func judgeC01(c *C01Case, cx *Ctx) *Violation {
 		return v
 	}
 	nontrivial := rs.inside > 0 && rs.outside > 0 && hasInteraction(append(append(Paths{}, c.Subj...), c.Clip...))
-	cx.St.Eval(c, nontrivial, c.Fam.Label(), "op:"+ctName(c.CT)+"/"+frName(c.FR), entryLabel(c.Entry), clipLabel(c.Clip))
+	domain := "domain:strict"
+	if in, why := kit.NearDegenerate([]Paths{c.Subj, c.Clip}, true, nearTol); in {
+		domain = "domain:near-degenerate(" + why + ")"
+	}
+	cx.St.Eval(c, nontrivial, c.Fam.Label(), "op:"+ctName(c.CT)+"/"+frName(c.FR), entryLabel(c.Entry), clipLabel(c.Clip), domain)
 	cx.St.Count("probes_judged", int64(rs.judged))
 	cx.St.Count("probes_generated", int64(len(probes)))
 	cx.St.Count("mismatch_attributed_to_listed_callsite", int64(rs.attributed))
 	cx.St.Count("events_recorded", int64(len(evs)))
+	cx.St.Count("mismatch_attributed_to_listed_class", int64(rs.attributedClass))
+	if rs.attributedClass > 0 {
+		cx.St.Count("cases_with_class_attributed_mismatch", 1)
+	}
 	return nil
 }
 
